@@ -2185,6 +2185,8 @@ func (p *parser) selectObject(child Node) (Node, error) {
 				Child:  child,
 				Fields: fields,
 			}, nil
+		default:
+			return nil, &unexpectedTokenError{p.curr.Value}
 		}
 	}
 }
